@@ -694,12 +694,12 @@ package internal
 //@   option props=[C13]
 //@   ghost pos map[int]int
 //@   requires f != nil && f.providers != nil && 0 <= funcIdx && funcIdx < len(f.Funcs) && f.Funcs[funcIdx] != nil
-//@   loop 1 invariant [C01,C02,C11] providers-collected-so-far: 0 <= idx1 && idx1 <= len(f.Funcs[funcIdx].Dependencies) && forall(k, int, implies(0 <= k && k < idx1 && $HASPROV, 0 <= pos[k] && pos[k] < len(deps) && deps[pos[k]] == $PROV))
+//@   loop 1 invariant [C01,C02,C11,C12] providers-collected-so-far: 0 <= idx1 && idx1 <= len(f.Funcs[funcIdx].Dependencies) && forall(k, int, implies(0 <= k && k < idx1 && $HASPROV, 0 <= pos[k] && pos[k] < len(deps) && deps[pos[k]] == $PROV))
 //@   ghost src map[int]int
 //@   loop 1 invariant [C13] only-provider-indices-collected: len(deps) >= 0 && forall(j, int, implies(0 <= j && j < len(deps), 0 <= src[j] && src[j] < idx1 && typeof(tmapAt(f.providers, f.Funcs[funcIdx].Dependencies[src[j]])) == typeid("int") && deps[j] == dataof(tmapAt(f.providers, f.Funcs[funcIdx].Dependencies[src[j]]))))
 //@   at call append 1 ghost pos[idx1] = len(arg0)
 //@   at call append 1 ghost src[len(arg0)] = idx1
-//@   ensures [C01,C02,C11] every-dependency-with-a-provider-is-listed: forall(k, int, implies(0 <= k && k < len(f.Funcs[funcIdx].Dependencies) && $HASPROV, exists(j, int, 0 <= j && j < len(result) && result[j] == $PROV)))
+//@   ensures [C01,C02,C11,C12] every-dependency-with-a-provider-is-listed: forall(k, int, implies(0 <= k && k < len(f.Funcs[funcIdx].Dependencies) && $HASPROV, exists(j, int, 0 <= j && j < len(result) && result[j] == $PROV)))
 //@   ensures [C13] lists-only-provider-indices: forall(j, int, implies(0 <= j && j < len(result), exists(k, int, 0 <= k && k < len(f.Funcs[funcIdx].Dependencies) && $HASPROV && result[j] == $PROV)))
 
 //@ macro FN = f.Funcs[i]
@@ -714,8 +714,8 @@ package internal
 //@   requires $C && f != nil && f.providers != nil
 //@   requires functions-are-distinct-objects: forall(i, int, implies(0 <= i && i < len(f.Funcs), f.Funcs[i] != nil && forall(i2, int, implies(0 <= i2 && i2 < len(f.Funcs) && i != i2, f.Funcs[i] != f.Funcs[i2]))))
 //@   requires providers-hold-function-indices: forall(t, int, implies(typeof(tmapAt(f.providers, t)) == typeid("int"), 0 <= dataof(tmapAt(f.providers, t)) && dataof(tmapAt(f.providers, t)) < len(f.Funcs)))
-//@   loop 1 invariant [C01,C02,C11,C07] functions-scheduled-so-far: 0 <= idx1 && idx1 <= len(f.Funcs) && forall(i, int, implies(0 <= i && i < idx1, $SCHEDULED))
-//@   loop 2 invariant [C01,C02,C11,C07] providers-appended-so-far: 0 <= idx2 && idx2 <= len(deps2) && 0 <= idx && idx < len(f.Funcs) && fn == f.Funcs[idx] && forall(j, int, implies(0 <= j && j < idx2, 0 <= v[j] && v[j] < len(fn.DependsOn) && fn.DependsOn[v[j]] == f.Funcs[deps2[j]])) && forall(i, int, implies(0 <= i && i < idx, $SCHEDULED))
+//@   loop 1 invariant [C01,C02,C11,C07,C12] functions-scheduled-so-far: 0 <= idx1 && idx1 <= len(f.Funcs) && forall(i, int, implies(0 <= i && i < idx1, $SCHEDULED))
+//@   loop 2 invariant [C01,C02,C11,C07,C12] providers-appended-so-far: 0 <= idx2 && idx2 <= len(deps2) && 0 <= idx && idx < len(f.Funcs) && fn == f.Funcs[idx] && forall(j, int, implies(0 <= j && j < idx2, 0 <= v[j] && v[j] < len(fn.DependsOn) && fn.DependsOn[v[j]] == f.Funcs[deps2[j]])) && forall(i, int, implies(0 <= i && i < idx, $SCHEDULED))
 //@   at call Dependencies 1 ghost deps2 = ret
 //@   at store DependsOn 1 ghost v[idx2] = len(target.DependsOn) - 1
 //@   ghost ord slice[int]
@@ -725,7 +725,7 @@ package internal
 //   image of the order - so that every back end discharges it; the one-step combination "hence every function
 //   is in TopoFuncs" needs an instantiation chain that only one back end found, which made the proof fragile)
 //@   ensures [C02,C10] every-function-is-in-the-generation-order: len(f.TopoFuncs) == len(ord) && forall(j, int, implies(0 <= j && j < len(ord), 0 <= ord[j] && ord[j] < len(f.Funcs) && f.TopoFuncs[j] == f.Funcs[ord[j]])) && forall(k, int, implies(0 <= k && k < len(f.Funcs), exists(j, int, 0 <= j && j < len(ord) && ord[j] == k)))
-//@   ensures [C01,C02,C11,C07] every-function-depends-on-the-provider-of-each-of-its-dependencies: forall(i, int, implies(0 <= i && i < len(f.Funcs), forall(k, int, implies(0 <= k && k < len(f.Funcs[i].Dependencies) && $HASPROVI, exists(j, int, 0 <= j && j < len(f.Funcs[i].DependsOn) && f.Funcs[i].DependsOn[j] == f.Funcs[$PROVI])))))
+//@   ensures [C01,C02,C11,C07,C12] every-function-depends-on-the-provider-of-each-of-its-dependencies: forall(i, int, implies(0 <= i && i < len(f.Funcs), forall(k, int, implies(0 <= k && k < len(f.Funcs[i].Dependencies) && $HASPROVI, exists(j, int, 0 <= j && j < len(f.Funcs[i].DependsOn) && f.Funcs[i].DependsOn[j] == f.Funcs[$PROVI])))))
 
 // ---------------------------------------------------------------------------
 // C13 sweep, remaining entry functions of the compiler.
@@ -839,3 +839,4 @@ package internal
 //@   option props=[C13]
 //@   option nosafety=true
 //@   at call astWalk 1 pre assert [C13] the-whole-file-is-searched-for-directives: dataof(arg0) == astFile && typeof(arg0) == typeid("*go/ast.File")
+//@   ensures [C16,C17] the-source-is-read-from-the-file-the-syntax-tree-was-parsed-from: result != nil && result.Filepath == pure("(*go/token.File).Name", pure("(*go/token.FileSet).File", c.fset, pure("(*go/ast.File).Pos", astFile)))
